@@ -98,7 +98,7 @@ func main() {
 		DistinctNontrivial: b.nontrivial + pa.nontrivial,
 		Rule: "part (a), generated coroutines: " + pa.rule + " || " + fmt.Sprintf("part (b), std decoders: inputs = files of test/data up to %d bytes for %d std packages + the valid streams of C07's reference-encoder families up to 64 bytes (images up to 200 bytes) + short JSON/CBOR documents, deduplicated; "+
 			"scripts per input (n source bytes, m output bytes/tokens): every single source split 0..n (n = everything given, closed only in a later call), every single destination-capacity split 0..m (transformers, token decoders), "+
-			"1-byte-at-a-time source, destination and both, steps 2/3/5/16, every pair of source splits when n <= 24; image decoders: the splits run across decode_image_config / decode_frame_config / decode_frame...; "+
+			"1-byte-at-a-time source, destination and both, steps 2/3/5/16, every pair of source splits when n <= 24, and for transformers with more than 32 KiB of output a streaming decode with uniform fresh destination buffers of 256, 300, 1000, 1024, 4096, 4097, 32768 and 65536 bytes (36 long structured deflate/zlib/gzip/lzw streams are added as inputs for this); image decoders: the splits run across decode_image_config / decode_frame_config / decode_frame...; "+
 			"large inputs have their single-split positions strided (%s). evaluations = chunked runs compared with the one-shot run; distinct non-trivial = distinct (input, script) pairs in which at least one call suspended and resumed and the comparison passed",
 			b.maxSeed, b.nPkgs, b.strideNote),
 		Exhaustive: b.complete && pa.complete,
